@@ -50,6 +50,7 @@ MUT = {"append", "extend", "insert", "pop", "remove", "clear", "sort", "reverse"
 
 
 def run(repo: Repo, rep, tier: str):
+    rep.count("files_in_scope", repo.consult_all())
     census(repo, rep, "C14")
     attach_module_rules(repo, rep, "C14")
     attach_pattern_rules(repo, rep, "C14")
